@@ -351,6 +351,45 @@ class MatchToIf(ast.NodeTransformer):
         return chain
 
 
+# ---------------------------------------------------------------------------------------------- pass: **{...} / **helper() -> keywords
+def expand_dict_splats(tree):
+    """`f(**{"a": x, "b": y})` -> `f(a=x, b=y)`;  `f(**opts(e))` likewise when `opts` is a module-level function whose whole
+    body is `return {<constant keys>: ...}` and the argument is a simple expression (substituted for the parameter)."""
+    helpers = {}
+    for st in tree.body:
+        if isinstance(st, ast.FunctionDef) and not st.decorator_list and not st.args.vararg and not st.args.kwarg and not st.args.kwonlyargs:
+            body = _strip_doc(st.body)
+            if len(body) == 1 and isinstance(body[0], ast.Return) and isinstance(body[0].value, ast.Dict) and body[0].value.keys and \
+                    all(isinstance(k, ast.Constant) and isinstance(k.value, str) and k.value.isidentifier() for k in body[0].value.keys):
+                helpers[st.name] = st
+    changed = 0
+    for call in [n for n in ast.walk(tree) if isinstance(n, ast.Call)]:
+        new_kw = []
+        dirty = False
+        for kw in call.keywords:
+            if kw.arg is not None:
+                new_kw.append(kw)
+                continue
+            d = kw.value
+            if isinstance(d, ast.Call) and isinstance(d.func, ast.Name) and d.func.id in helpers and not d.keywords \
+                    and all(is_pure_simple(a) for a in d.args):
+                h = helpers[d.func.id]
+                ps = [a.arg for a in h.args.posonlyargs + h.args.args]
+                if len(ps) == len(d.args):
+                    ret = copy.deepcopy(_strip_doc(h.body)[0].value)
+                    d = Renamer(dict(zip(ps, d.args))).visit(ret)
+            if isinstance(d, ast.Dict) and d.keys and all(isinstance(k, ast.Constant) and isinstance(k.value, str) and k.value.isidentifier() for k in d.keys):
+                for k, v in zip(d.keys, d.values):
+                    new_kw.append(ast.copy_location(ast.keyword(arg=k.value, value=v), kw.value))
+                dirty = True
+            else:
+                new_kw.append(kw)
+        if dirty and len({k.arg for k in new_kw if k.arg}) == len([k for k in new_kw if k.arg]):
+            call.keywords = new_kw
+            changed += 1
+    return changed
+
+
 # ---------------------------------------------------------------------------------------------- pass: multi-item with -> nested
 class SplitWith(ast.NodeTransformer):
     """`with A as x, B as y: body`  is by definition  `with A as x: with B as y: body`."""
@@ -1162,12 +1201,23 @@ def objects_to_closures(tree, counter):
     for kname, shape in shapes.items():
         cls = classes[kname]
         refs = [n for n in ast.walk(tree) if isinstance(n, ast.Name) and n.id == kname]
+        is_cm = "__enter__" in shape["methods"] or "__exit__" in shape["methods"]
+        if is_cm and len(refs) > 1:
+            # a context-manager class may be entered at several places: every reference must be `with K(...)`
+            ctxs = {id(it.context_expr.func) for w_ in ast.walk(tree) if isinstance(w_, ast.With) for it in w_.items
+                    if isinstance(it.context_expr, ast.Call) and isinstance(it.context_expr.func, ast.Name)}
+            if all(id(r_) in ctxs for r_ in refs) and shape["methods"].keys() <= {"__init__", "__enter__", "__exit__"}:
+                try:
+                    if _delegating_cm(tree, cls, shape, None):
+                        changed += 1
+                except _Bail:
+                    pass
+            continue
         if len(refs) != 1 or not isinstance(refs[0].ctx, ast.Load):
             continue
         ref = refs[0]
         if any(ref is x for x in ast.walk(cls)):
             continue
-        is_cm = "__enter__" in shape["methods"] or "__exit__" in shape["methods"]
         try:
             if is_cm:
                 ok = _cm_class_to_generator(tree, cls, shape, ref, funcs)
@@ -1278,6 +1328,66 @@ def _instance_to_closures(tree, cls, shape, ref, funcs, counter):
     return True
 
 
+def _delegating_cm(tree, cls, shape, withs):
+    """class K:  __enter__: self.t = CM(...); return E(self.t.__enter__())   __exit__: return self.t.__exit__(a, b, c)
+    is  `with CM(...) as v: yield E(v)`  as a generator-based context manager.  -> True (converted) / None (not this shape)."""
+    methods = shape["methods"]
+    if set(methods) - {"__init__", "__enter__", "__exit__"}:
+        return None
+    en, ex = methods["__enter__"], methods["__exit__"]
+    sx = (ex.args.posonlyargs + ex.args.args)[0].arg
+    exp = [a.arg for a in (ex.args.posonlyargs + ex.args.args)][1:]
+    xb = _strip_doc(ex.body)
+    if len(exp) != 3 or len(xb) != 1 or not isinstance(xb[0], (ast.Return, ast.Expr)):
+        return None
+    xc = xb[0].value
+    if not (isinstance(xc, ast.Call) and isinstance(xc.func, ast.Attribute) and xc.func.attr == "__exit__" and not xc.keywords
+            and isinstance(xc.func.value, ast.Attribute) and isinstance(xc.func.value.value, ast.Name) and xc.func.value.value.id == sx
+            and [a.id if isinstance(a, ast.Name) else None for a in xc.args] == exp):
+        return None
+    field = xc.func.value.attr
+    se = (en.args.posonlyargs + en.args.args)[0].arg
+    eb = list(_strip_doc(en.body))
+    if len(eb) != 2 or not (isinstance(eb[0], ast.Assign) and len(eb[0].targets) == 1 and isinstance(eb[0].targets[0], ast.Attribute)
+                            and isinstance(eb[0].targets[0].value, ast.Name) and eb[0].targets[0].value.id == se and eb[0].targets[0].attr == field):
+        return None
+    if not isinstance(eb[1], ast.Return) or eb[1].value is None:
+        return None
+    if any(isinstance(n, ast.Name) and n.id == se for n in ast.walk(eb[0].value)):
+        return None
+    enters = [n for n in ast.walk(eb[1].value) if isinstance(n, ast.Call) and isinstance(n.func, ast.Attribute) and n.func.attr == "__enter__"
+              and isinstance(n.func.value, ast.Attribute) and isinstance(n.func.value.value, ast.Name) and n.func.value.value.id == se
+              and n.func.value.attr == field and not n.args and not n.keywords]
+    selfs = [n for n in ast.walk(eb[1].value) if isinstance(n, ast.Name) and n.id == se]
+    if len(enters) != 1 or len(selfs) != 1:
+        return None
+    if "__init__" in methods:
+        init = methods["__init__"]
+        if len(params_of(init)) != 1:
+            return None
+        for st in _strip_doc(init.body):
+            if not (isinstance(st, ast.Assign) and isinstance(st.value, ast.Constant)):
+                return None
+    var = f"{cls.name.strip('_').lower()}__entered"
+    yexpr = copy.deepcopy(eb[1].value)
+
+    class R(ast.NodeTransformer):
+        def visit_Call(self, n):
+            if isinstance(n.func, ast.Attribute) and n.func.attr == "__enter__" and isinstance(n.func.value, ast.Attribute) \
+                    and isinstance(n.func.value.value, ast.Name) and n.func.value.value.id == se:
+                return ast.copy_location(ast.Name(id=var, ctx=ast.Load()), n)
+            return self.generic_visit(n)
+    yexpr = R().visit(yexpr)
+    w = ast.With(items=[ast.withitem(context_expr=copy.deepcopy(eb[0].value), optional_vars=ast.Name(id=var, ctx=ast.Store()))],
+                 body=[ast.Expr(value=ast.Yield(value=yexpr))])
+    gen = ast.FunctionDef(name=cls.name, args=ast.arguments(posonlyargs=[], args=[], vararg=None, kwonlyargs=[], kw_defaults=[], kwarg=None, defaults=[]),
+                          body=[w], decorator_list=[ast.Name(id="contextmanager", ctx=ast.Load())], returns=None, type_params=[])
+    _loc(gen, cls)
+    tree.body[tree.body.index(cls)] = gen
+    _ensure_contextmanager_import(tree)
+    return True
+
+
 def _cm_class_to_generator(tree, cls, shape, ref, funcs):
     """class K: __init__/__enter__/__exit__ (+ helpers), used only as `with K(args):`  ->  @contextmanager def K."""
     methods, fields = shape["methods"], shape["fields"]
@@ -1290,7 +1400,12 @@ def _cm_class_to_generator(tree, cls, shape, ref, funcs):
             for it in w.items:
                 if isinstance(it.context_expr, ast.Call) and it.context_expr.func is ref:
                     site = (w, it)
-    if site is None or site[1].optional_vars is not None:
+    if site is None:
+        return False
+    deleg = _delegating_cm(tree, cls, shape, [w_ for w_ in ast.walk(tree) if isinstance(w_, ast.With)])
+    if deleg is not None:
+        return deleg
+    if site[1].optional_vars is not None:
         return False
     ex = methods["__exit__"]
     ex_params = [a.arg for a in (ex.args.posonlyargs + ex.args.args)][1:]
@@ -1746,7 +1861,7 @@ def canonicalise(trees, level, known_funcs=None):
         mt.visit(tree)
         sw = SplitWith()
         sw.visit(tree)
-        mt.changed += sw.changed
+        mt.changed += sw.changed + expand_dict_splats(tree)
         n_acq = acquire_to_with(tree)
         n_obj = objects_to_closures(tree, counter)
         n_inl = inline_closures(tree, counter)
